@@ -144,10 +144,15 @@ class _STIXBase(collections.abc.Mapping):
         # type extensions, which can add extra properties which are *not*
         # considered custom.
         # (STIX 2.0 has no extension mechanism: there, "extensions" is just
-        # another unknown property.)
+        # another unknown property.  The same goes for the helper types
+        # nested inside objects - external references, extension contents,
+        # ... - which define neither "type" nor "extensions": only STIX
+        # objects can be extended.)
         extensions = kwargs.get("extensions")
-        if extensions is not None and \
-                isinstance(self, stix2.v20._STIXBase20):
+        if extensions is not None and (
+            isinstance(self, stix2.v20._STIXBase20) or
+            not ({"type", "extensions"} & self._properties.keys())
+        ):
             extensions = None
         registered_toplevel_extension_props = {}
         has_unregistered_toplevel_extension = False
